@@ -1,8 +1,8 @@
 from .model import SCHEMA, Spec
-from . import c_dimension, c_prefix, c_unit, c_quantity
+from . import c_dimension, c_prefix, c_unit, c_quantity, c_registry
 
 CONTRACTS = {}
-for _m in (c_dimension, c_prefix, c_unit, c_quantity):
+for _m in (c_dimension, c_prefix, c_unit, c_quantity, c_registry):
     CONTRACTS.update(_m.CONTRACTS)
 SPEC = Spec()
 
